@@ -139,14 +139,22 @@ func c11Hammer(r *vh.Result, rng *vh.Rand) error {
 			return desync.NewFailoverGroup(ms...)
 		}
 		sw := desync.NewSwapStore(mk(0))
-		var failed, wrong int64
+		var failed, wrong, panics int64
+		var panicMsg atomic.Value
 		var wg sync.WaitGroup
 		stop := make(chan struct{})
+		guard := func() {
+			if p := recover(); p != nil {
+				atomic.AddInt64(&panics, 1)
+				panicMsg.Store(fmt.Sprint(p))
+			}
+		}
 		for g := 0; g < 6; g++ {
 			wg.Add(1)
 			seed := rng.U64()
 			go func() {
 				defer wg.Done()
+				defer guard()
 				lr := vh.NewRand(seed)
 				for {
 					select {
@@ -155,28 +163,52 @@ func c11Hammer(r *vh.Result, rng *vh.Rand) error {
 					default:
 					}
 					id := lr.Intn(3)
-					if lr.Chance(2, 3) {
+					switch lr.Intn(4) {
+					case 0: // a request that FAILS (no generation has chunk 5): it must come back as ChunkMissing, and come back
+						if _, err := sw.GetChunk(c11ID(5)); c11Class(err) != "m" {
+							atomic.AddInt64(&failed, 1)
+						}
+					case 1:
+						if _, err := sw.HasChunk(c11ID(id)); err != nil {
+							atomic.AddInt64(&failed, 1)
+						}
+					default:
 						ch, err := sw.GetChunk(c11ID(id))
 						if err != nil {
 							atomic.AddInt64(&failed, 1)
 						} else if c11Tag(ch)%100 != id {
 							atomic.AddInt64(&wrong, 1)
 						}
-					} else if _, err := sw.HasChunk(c11ID(id)); err != nil {
-						atomic.AddInt64(&failed, 1)
 					}
 					runtime.Gosched()
 				}
 			}()
 		}
-		for g := 1; g < gens; g++ {
-			time.Sleep(200 * time.Microsecond)
-			if err := sw.Swap(mk(g)); err != nil {
-				r.Fail("predicate", "swap/swap-fails", "Swap failed under load: "+err.Error(), map[string]interface{}{"conc": "hammer"})
+		swaps := make(chan struct{})
+		go func() {
+			defer close(swaps)
+			defer guard()
+			for g := 1; g < gens; g++ {
+				time.Sleep(200 * time.Microsecond)
+				if err := sw.Swap(mk(g)); err != nil {
+					r.Fail("predicate", "swap/swap-fails", "Swap failed under load: "+err.Error(), map[string]interface{}{"conc": "hammer"})
+				}
 			}
+		}()
+		// watchdog: requests and swaps must get through; a hang costs 10 s, not the harness timeout
+		finished := make(chan struct{})
+		go func() { <-swaps; close(stop); wg.Wait(); close(finished) }()
+		select {
+		case <-finished:
+		case <-time.After(10 * time.Second):
+			r.Fail("predicate", "swap/request-and-swap-stuck", "free-running load on a SwapStore (GetChunk/HasChunk incl. requests for a chunk no store has, and Swap calls): no progress for 10 s; goroutines:\n"+chainsStuckStacks(), map[string]interface{}{"conc": "hammer"})
+			return nil
 		}
-		close(stop)
-		wg.Wait()
+		if panics > 0 {
+			msg, _ := panicMsg.Load().(string)
+			r.Fail("predicate", "swap/panic", fmt.Sprintf("free-running load on a SwapStore over FailoverGroups: %d goroutines panicked: %s", panics, msg), map[string]interface{}{"conc": "hammer"})
+			return nil
+		}
 		r.Count(fmt.Sprintf("hammer|%d", round), true)
 		r.Dist("conc:hammer")
 		if len(w.closedCalls) > 0 {
@@ -190,6 +222,30 @@ func c11Hammer(r *vh.Result, rng *vh.Rand) error {
 		}
 	}
 	return nil
+}
+
+// chainsStuckStacks returns the stacks of the goroutines that sit in desync code or on a lock.
+func chainsStuckStacks() string {
+	buf := make([]byte, 1<<18)
+	buf = buf[:runtime.Stack(buf, true)]
+	return chainsFilterStacks(string(buf))
+}
+
+func chainsFilterStacks(dump string) string {
+	var out []string
+	for _, g := range strings.Split(dump, "\n\n") {
+		if strings.Contains(g, "folbricht/desync.") && (strings.Contains(g, "sync.RWMutex") || strings.Contains(g, "sync.Mutex") || strings.Contains(g, "chan receive") || strings.Contains(g, "semacquire")) {
+			ls := strings.Split(g, "\n")
+			if len(ls) > 9 {
+				ls = ls[:9]
+			}
+			out = append(out, strings.Join(ls, "\n"))
+		}
+		if len(out) >= 6 {
+			break
+		}
+	}
+	return strings.Join(out, "\n\n")
 }
 
 // c11FailoverLateReports: truly parallel failure reports.  The cooperative scheduler runs one goroutine at a time, so
@@ -261,7 +317,15 @@ func c11FailoverLateReports(r *vh.Result, rng *vh.Rand, trials int, replay map[s
 				roles[c12GoroutineID()] = ro
 				mu.Unlock()
 				close(ready)
-				_, err := group.GetChunk(c11ID(0))
+				var err error
+				func() {
+					defer func() {
+						if p := recover(); p != nil {
+							err = fmt.Errorf("PANIC: %v", p)
+						}
+					}()
+					_, err = group.GetChunk(c11ID(0))
+				}()
 				results <- outcome{ro, err}
 			}()
 			<-ready
